@@ -5,6 +5,7 @@ CONSTANTS
   MaxEnv = 7
   MaxInc = 2
   MaxRaise = 1
+  MaxBlock = 0
 INVARIANT NoViolation
 INVARIANT Structural
 INVARIANT Bounded
